@@ -12,9 +12,12 @@ and invalid) over seven association shapes, run on a real xtuml.MetaModel.
      unrelate of the same pair restores the deep dump.
   K  outcome, pools, both link directions (ordered partner lists) and referential reads after every
      step equal lean/PyxModel/Meta.lean run by the driver.
-Domain: relate/unrelate arguments are live instances (using a deleted instance as an argument is
-use-after-delete, which the statement neither lists as rejected nor as accepted); delete is applied
-to live and to already deleted instances (the repeated delete of the statement).
+Domain of the THEOREMS: relate/unrelate arguments are live instances; delete is applied to live and to already
+deleted instances (the repeated delete of the statement).  Histories that hand a DELETED instance to relate /
+unrelate (use-after-delete) are run as the family `uad`: the real code accepts such a relate and the deleted
+instance is reachable again, contradicting "only live instances are reachable" — the open finding
+`use-after-delete` of KNOWN_FINDINGS.txt (reported as KNOWN-FINDING; every other predicate is checked on
+those histories as on all others, and the model must still agree with the code step by step).
 """
 import itertools
 
@@ -30,7 +33,8 @@ RULE = ('per association shape (1:1, 1:M, M:1 unconditional, reflexive with phra
         '1500 thorough) with pools growing to 3-6 per class. Non-trivial: at least one accepted and one rejected '
         'relate or unrelate, or a delete of a linked instance; distinct = distinct (shape, history)')
 EXHAUSTIVE = {'quick': True, 'thorough': True}
-ASSUMPTIONS = ['relate/unrelate are called with live instances (use-after-delete is outside the domain)',
+ASSUMPTIONS = ['the theorems about liveness assume relate/unrelate are called with live instances; use-after-delete histories are '
+               'run (family uad) and their dead-reachable states are the open finding use-after-delete',
                'ids come from xtuml.IntegerGenerator; each class has at most one own unique_id attribute']
 CHUNK = 3000
 CASE_TIMEOUT_S = 20
@@ -77,8 +81,16 @@ def in_domain(ops):
 
 
 def generate(ctx):
+    """histories of the domain; the ones that use an instance after its deletion form the family `uad`
+    (a bounded sample of them): there the real code accepts the relate and the deleted instance becomes
+    reachable again — the open finding `use-after-delete` (KNOWN_FINDINGS.txt)"""
+    uad, cap = 0, ctx.pick(3000, 60000)
     for c in _generate(ctx):
         if in_domain(c['ops']):
+            yield c
+        elif uad < cap:
+            uad += 1
+            c['fam'] = 'uad'
             yield c
 
 
@@ -210,6 +222,7 @@ def run_impl(case):
     fails = []
     accepted = rejected = 0
     deleted_linked = False
+    revived = set()          # deleted instances that an ACCEPTED relate was given as argument afterwards (use-after-delete)
     prev_dump = None
     pending_undo = None      # (dump before a successful relate of a new pair, op)
     stats = {'fam_' + case['fam']: 1}
@@ -237,6 +250,8 @@ def run_impl(case):
         stats['out_' + str(got)] = stats.get('out_' + str(got), 0) + 1
         if str(got) != want:
             fail('outcome', '%s gave %s, the statement requires %s' % (op, got, want), step)
+        if op[0] == 'relate' and str(got) == 'ok':
+            revived.update(i for i in (op[1], op[2]) if not orc.live[i])
         if str(got) != 'ok':
             rejected += 1
             if after != before:
@@ -267,7 +282,11 @@ def run_impl(case):
                     fail('duplicate-partner', 'association %d lists a partner twice %s' % (ai, e), step)
                 for i in e:
                     if i not in live:
-                        fail('dead-reachable', 'association %d reaches deleted instance %d: %s' % (ai, i, e), step)
+                        if i in revived:
+                            fail('use-after-delete', 'relate() accepted the deleted instance %d as argument; association %d '
+                                 'reaches it again: %s' % (i, ai, e), step)
+                        else:
+                            fail('dead-reachable', 'association %d reaches deleted instance %d: %s' % (ai, i, e), step)
             if not a['smany'] and any(len(e) > 2 for e in src):
                 fail('unbounded', 'single-valued source end of association %d holds several partners %s' % (ai, src), step)
             if not a['tmany'] and any(len(e) > 2 for e in tgt):
